@@ -51,7 +51,7 @@ package http2
 // ---------------------------------------------------------------------------
 
 //@ func (*FrameHeader).parseValues
-//@ props C05 C16
+//@ props C05 C16 C17
 //@ requires recv: f != nil
 //@ requires hdr: len(header) >= 9
 //@ modifies f.length, f.kind, f.flags, f.stream
@@ -72,7 +72,7 @@ package http2
 //@ ensures rest: forall(i, 9, len(header), header[i] == old(header)[i])
 
 //@ func (*FrameHeader).checkLen
-//@ props C05 C16 C18
+//@ props C05 C16 C18 C17
 //@ requires recv: f != nil
 //@ pure
 //@ ensures ok: r0 == nil <==> (f.maxLen == 0 || f.length <= f.maxLen)
@@ -93,7 +93,7 @@ package http2
 //@ macro padok(p) = len(p) >= 1 && p[0] < len(p)
 
 //@ func (*Data).Deserialize
-//@ props C05 C01 C16
+//@ props C05 C01 C16 C17
 //@ requires recv: data != nil && fr != nil
 //@ requires lenok: fr.length == len(fr.payload)
 //@ modifies data.endStream, data.b, capacity(data.b)
@@ -117,7 +117,7 @@ package http2
 //@ |   forall(i, 1 + len(old(data.b)), len(fr.payload), fr.payload[i] == 0)
 
 //@ func (*Continuation).Deserialize
-//@ props C05 C01 C16
+//@ props C05 C01 C16 C17
 //@ requires recv: c != nil && fr != nil
 //@ modifies c.endHeaders, c.rawHeaders, capacity(c.rawHeaders)
 //@ ensures ok: r0 == nil && c.rawHeaders == old(fr.payload) && c.endHeaders == hasflag(fr.flags, 4)
@@ -131,7 +131,7 @@ package http2
 //@ ensures noeh: !c.endHeaders ==> fr.flags == old(fr.flags)
 
 //@ func (*Priority).Deserialize
-//@ props C05 C08 C16
+//@ props C05 C08 C16 C17
 //@ requires recv: pry != nil && fr != nil
 //@ modifies pry.stream, pry.weight
 //@ ensures size: err == nil <==> len(fr.payload) == 5
@@ -145,7 +145,7 @@ package http2
 //@ ensures layout: len(fr.payload) == 5 && be32(fr.payload, 0) == pry.stream && fr.payload[4] == pry.weight
 
 //@ func (*RstStream).Deserialize
-//@ props C05 C08 C16
+//@ props C05 C08 C16 C17
 //@ requires recv: rst != nil && fr != nil
 //@ modifies rst.code
 //@ ensures size: r0 == nil <==> len(fr.payload) == 4
@@ -159,7 +159,7 @@ package http2
 //@ ensures layout: len(fr.payload) == 4 && be32(fr.payload, 0) == rst.code
 
 //@ func (*WindowUpdate).Deserialize
-//@ props C05 C08 C16
+//@ props C05 C08 C16 C17
 //@ requires recv: wu != nil && fr != nil
 //@ modifies wu.increment
 //@ ensures size: r0 == nil <==> len(fr.payload) == 4
@@ -174,7 +174,7 @@ package http2
 //@ ensures value: 0 <= wu.increment && wu.increment <= 2147483647 ==> be32(fr.payload, 0) == wu.increment
 
 //@ func (*Ping).Deserialize
-//@ props C05 C16
+//@ props C05 C16 C17
 //@ requires recv: p != nil && frh != nil
 //@ modifies p.ack, p.data
 //@ ensures size: r0 == nil <==> len(frh.payload) == 8
@@ -190,7 +190,7 @@ package http2
 //@ ensures noack: !p.ack ==> fr.flags == old(fr.flags)
 
 //@ func (*GoAway).Deserialize
-//@ props C05 C16
+//@ props C05 C16 C17
 //@ requires recv: ga != nil && fr != nil
 //@ modifies ga.stream, ga.code, ga.data, capacity(ga.data)
 //@ ensures size: err == nil <==> len(fr.payload) >= 8
@@ -210,7 +210,7 @@ package http2
 //@ macro concat(r, a, b) = len(r) == len(a) + len(b) && r[:len(a)] == a && r[len(a):] == b
 
 //@ func (*Headers).Deserialize
-//@ props C05 C01 C16
+//@ props C05 C01 C16 C17
 //@ requires recv: h != nil && frh != nil
 //@ modifies h.priority, h.stream, h.weight, h.endStream, h.endHeaders, h.rawHeaders, capacity(h.rawHeaders)
 //@ let p = old(frh.payload)
@@ -246,7 +246,7 @@ package http2
 //@ ensures fpd: hasflag(frh.flags, 8) == (h.hasPadding || hasflag(old(frh.flags), 8))
 
 //@ func (*PushPromise).Deserialize
-//@ props C05 C16
+//@ props C05 C16 C17
 //@ requires recv: pp != nil && fr != nil
 //@ requires lenok: fr.length == len(fr.payload)
 //@ modifies pp.stream, pp.header, capacity(pp.header), pp.ended
@@ -286,7 +286,7 @@ package http2
 //@ |   (forall(k, 0, cnt, sk(d,k) != id) ==> field == was)
 
 //@ func (*Settings).Read
-//@ props C18 C05 C16
+//@ props C18 C05 C16 C17
 //@ requires recv: st != nil
 //@ modifies st.tableSize, st.enablePush, st.maxStreams, st.windowSize, st.frameSize, st.headerSize, st.hasWindowSize
 //@ loop 0: invariant step: i == last + 6 && last % 6 == 0 && last >= 0 && last <= n && n == len(d)
@@ -329,7 +329,7 @@ package http2
 //@ ensures hdr: ite(st.headerSize != 0, sone(r, cnt, 6, st.headerSize), snone(r, cnt, 6))
 
 //@ func (*Settings).Deserialize
-//@ props C18 C05 C16
+//@ props C18 C05 C16 C17
 //@ requires recv: st != nil && fr != nil
 //@ modifies st.ack, st.tableSize, st.enablePush, st.maxStreams, st.windowSize, st.frameSize, st.headerSize, st.hasWindowSize
 //@ let p = fr.payload
@@ -362,7 +362,7 @@ package http2
 // ---------------------------------------------------------------------------
 
 //@ func readInt
-//@ props C03 C16
+//@ props C03 C16 C17
 //@ requires nbits: 1 <= n && n <= 8
 //@ pure
 //@ loop 0: unroll 12
@@ -409,7 +409,7 @@ package http2
 //@ macro hpackOK(hp) = hp != nil && forall(i, 0, len(hp.dynamic), hp.dynamic[i] != nil)
 
 //@ func (*HPACK).peek
-//@ props C03 C16
+//@ props C03 C16 C17
 //@ opt wrapsigned=true
 //@ requires recv: hp != nil
 //@ pure
@@ -438,7 +438,7 @@ package http2
 //@ globalinvariant rootHuffmanNode root: self != nil && len(self.sub) == 256 && spec.hid(self) == 0
 
 //@ func HuffmanDecode
-//@ props C15 C16 C03
+//@ props C15 C16 C03 C17
 //@ modifies capacity(dst)
 //@ loop 0: invariant keep: len(dst) >= len(old(dst)) && dst[:len(old(dst))] == old(dst)
 //@ loop 0: invariant node: root != nil && len(root.sub) == 256 && bits >= 0 && bits < 8
@@ -514,7 +514,7 @@ package http2
 //@ ensures nonnil: r0 != nil
 
 //@ func readString
-//@ props C03 C16
+//@ props C03 C16 C17
 //@ modifies capacity(dst)
 //@ let b0 = old(b)
 //@ let n = spec.intVal(b0, 7)
@@ -572,13 +572,13 @@ package http2
 //@ ensures empty: len(hf.key) == 0 && len(hf.value) == 0 && !hf.sensible
 
 //@ func AcquireHeaderField
-//@ props C03 C16
+//@ props C03 C16 C17
 //@ # a pooled object comes with buffers nobody else holds
 //@ ensures fresh: r0 != nil && fresh(r0) && (fresh(r0.key) || cap(r0.key) == 0) && (fresh(r0.value) || cap(r0.value) == 0) &&
 //@ |   bufsep(r0.key, r0.value) && bufsep(r0.value, r0.key)
 
 //@ func ReleaseHeaderField
-//@ props C03 C16
+//@ props C03 C16 C17
 //@ requires nonnil: hf != nil
 //@ modifies hf.key, hf.value, hf.sensible
 
@@ -637,7 +637,7 @@ package http2
 //@ macro tblsep(hp, hf) = forall(i, 0, len(hp.dynamic), hfsep(hf, hp.dynamic[i])) && forall(i, 0, 61, hfsep(hf, staticTable[i]))
 
 //@ func (*HPACK).nextField
-//@ props C03 C01 C16
+//@ props C03 C01 C16 C17
 //@ requires tbl: hpackOK(hp) && hf != nil
 //@ modifies hf.key, capacity(hf.key), hf.value, capacity(hf.value), hf.sensible, hp.maxTableSize, hp.dynamic, capacity(hp.dynamic), family(HeaderField), anybytes()
 //@ opt noframe=true
@@ -751,13 +751,13 @@ package http2
 //@ ensures n: nn >= 0 && nn <= len(p) && (err == nil ==> nn == len(p))
 
 //@ func (*FrameHeader).Reset
-//@ props C05 C16
+//@ props C05 C16 C17
 //@ requires recv: f != nil
 //@ modifies f.kind, f.flags, f.stream, f.length, f.maxLen, f.fr, f.payload
 //@ ensures zero: f.kind == 0 && f.flags == 0 && f.stream == 0 && f.length == 0 && f.maxLen == 16384 && f.fr == nil && len(f.payload) == 0
 
 //@ func AcquireFrameHeader
-//@ props C05 C16
+//@ props C05 C16 C17
 //@ ensures fresh: r0 != nil && fresh(r0) && r0.fr == nil && r0.maxLen == 16384 && r0.length == 0 && len(r0.payload) == 0
 
 //@ # the ten frame types, by wire type code (RFC 7540 section 6)
@@ -784,7 +784,7 @@ package http2
 //@ requires body: fr != nil && fr.fr != nil
 
 //@ func (*FrameHeader).readFrom
-//@ props C05 C16
+//@ props C05 C16 C17
 //@ # the header is fresh from AcquireFrameHeader / Reset: no body yet, empty payload
 //@ requires recv: f != nil && br != nil && f.fr == nil && len(f.payload) == 0
 //@ opt noframe=true
@@ -798,7 +798,7 @@ package http2
 //@ ensures relnil: called(ReleaseFrame) > 0 ==> f.fr == nil
 
 //@ func ReadFrameFromWithSize
-//@ props C05 C16 C18
+//@ props C05 C16 C18 C17
 //@ requires rd: br != nil
 //@ opt noframe=true
 //@ ensures ok: r1 == nil ==> r0 != nil && r0.fr != nil && 0 <= r0.kind && r0.kind <= 9 && frameTypeOK(r0.fr, r0.kind) && r0.length == len(r0.payload)
@@ -807,7 +807,7 @@ package http2
 //@ ensures err: r1 != nil ==> r0 == nil
 
 //@ func ReadFrameFrom
-//@ props C05 C16
+//@ props C05 C16 C17
 //@ requires rd: br != nil
 //@ opt noframe=true
 //@ ensures ok: r1 == nil ==> r0 != nil && r0.fr != nil && 0 <= r0.kind && r0.kind <= 9 && frameTypeOK(r0.fr, r0.kind) && r0.length == len(r0.payload)
@@ -1198,7 +1198,7 @@ package http2
 //@ opt noframe=true
 
 //@ func (*Conn).readStream
-//@ props C14 C02 C16
+//@ props C14 C02 C16 C17
 //@ requires args: c != nil && fr != nil && res != nil
 //@ requires typed: 0 <= fr.kind && fr.kind <= 9 && frameTypeOK(fr.fr, fr.kind) && fr.length >= 0 && fr.length <= 16777215
 //@ requires win: c.maxWindow >= 0 && c.currentWindow >= c.maxWindow / 2 && c.currentWindow <= c.maxWindow
@@ -1214,7 +1214,7 @@ package http2
 //@ ensures rst: fr.kind == 3 ==> err != nil
 
 //@ func (*HPACK).Next
-//@ props C03 C16
+//@ props C03 C16 C17
 //@ requires tbl: hpackOK(hp) && hf != nil
 //@ modifies hf.key, capacity(hf.key), hf.value, capacity(hf.value), hf.sensible, hp.maxTableSize, hp.dynamic, capacity(hp.dynamic), family(HeaderField), anybytes()
 //@ opt noframe=true
@@ -1225,7 +1225,7 @@ package http2
 //@ ensures place: dynplace(hp)
 
 //@ func (*Conn).readHeader
-//@ props C20 C02 C16
+//@ props C20 C02 C16 C17
 //@ requires args: c != nil && res != nil && c.dec != nil && hpackOK(c.dec)
 //@ opt noframe=true
 //@ modifies c.dec.maxTableSize, c.dec.dynamic, capacity(c.dec.dynamic), family(HeaderField), anybytes()
@@ -1275,12 +1275,16 @@ package http2
 //@ opt body=skip
 
 //@ func (*Conn).refillPending
-//@ props C07
+//@ props C07 C02
 //@ requires args: c != nil && pb != nil && pb.stream != nil
 //@ opt noovf=true
 //@ opt noframe=true
 //@ modifies pb.buf, pb.body, pb.read, pb.drained, anybytes()
 //@ ensures chunk: len(pb.body) <= 16384 || sameslice(pb.body, old(pb.body))
+//@ # whatever the reader handed over is queued, also when it comes together with io.EOF or an error (io.Reader allows both)
+//@ ghost got = 0
+//@ ghost@ret:io.Reader.Read#1 got = ret0
+//@ ensures kept: got > 0 ==> len(pb.body) == got && pb.read == old(pb.read) + got
 //@ ensures progress: r0 == nil ==> len(pb.body) > 0 || pb.drained
 //@ ensures stream: pb.stream == old(pb.stream) && pb.ctx == old(pb.ctx)
 
@@ -1440,6 +1444,9 @@ package http2
 
 //@ func (*serverConn).handleStreams.releaseStream
 //@ inline
+//@ # a request context goes back to the pool only when no handler is using it (C17)
+//@ assert@call:(*Pool).Put#1 notrunning: !strm.handlerRunning
+//@ route notrunning C17 C13
 
 //@ func (*serverConn).handleStreams.closeStream
 //@ inline
@@ -1477,6 +1484,8 @@ package http2
 //@ route truth_prioself C10
 //@ route truth_lowid C10
 //@ route disp C10
+//@ route ends C10
+//@ route notclosing C10
 //@ route delta C06
 //@ route rest C06
 //@ route legal C08 C01 C13
@@ -1500,6 +1509,12 @@ package http2
 //@ assert@call:(*serverConn).dispatchHandler#1 slot: openStreams >= 0 ==> openStreams <= sc.st.maxStreams
 //@ ghost@call:(*serverConn).dispatchHandler#1 maxd = max(maxd, arg1.id)
 //@ # ---- GOAWAY tells the truth (C10): last-stream-id (sc.lastID, see writeGoAway) is not below a stream that was dispatched ----
+//@ # once the connection is closing no stream is opened any more
+//@ assert@call:NewStream#1 notclosing: sc.state != 1
+//@ # a connection error that leaves nothing to wait for (GOAWAY without a stream to finish) ends the loop there and then
+//@ ghost noref = false
+//@ ghost@call:(*serverConn).writeGoAway#1 noref = true
+//@ ghost@call:(*serverConn).writeGoAway#2 noref = true
 //@ assert@call:(*serverConn).writeGoAway#1 truth_winstream: sc.lastID >= maxd
 //@ assert@call:(*serverConn).writeGoAway#2 truth_winconn: sc.lastID >= maxd
 //@ assert@call:(*serverConn).writeGoAway#3 truth_rstidle: sc.lastID >= maxd
@@ -1519,6 +1534,7 @@ package http2
 //@ loop 0: invariant uniq: tblUniq(strms)
 //@ loop 0: invariant ids: tblIds(strms, sc.lastID)
 //@ loop 0: invariant disp: maxd <= sc.lastID
+//@ loop 0: invariant ends: !noref
 //@ # ---- C09: a header block is skipped only when the connection is going down; on a connection that stays up
 //@ # (e.g. a stream refused for MaxConcurrentStreams) skipping it leaves the HPACK decoder out of step with the peer ----
 //@ loop 0: invariant hpacksync: handled == nil || !(handled.kind == FrameHeaders || handled.kind == FrameContinuation) || fed || sc.state == 1
